@@ -9,18 +9,18 @@ ALL = ["C%02d" % i for i in range(1, 20)]
 CHECKS = {
     "C12": ("exploration",
             "bounded exhaustive enumeration of unification problems (holes punched at every position and shift) against reference conversion and scope checks",
-            "Instances are all closed type-directed terms up to 5/6 nodes; patterns are the instance with a hole punched at every position with every shift 0..depth (both argument orders) and with two holes (distinct cells, the same cell twice) at pairs of positions; plus all ordered pairs of the 400/1200 smallest terms hole-free and holed (scope-escape and occurs-check configurations), plus holed patterns under contexts with parameters and definitions, plus problems with holes on both sides. For every success of the real unify: following the solutions terminates, every solution is in scope where its hole was written (the home depth of a hole, depth minus shift, is the same at every copy of it), the filled-in terms are convertible in the reference, the context is untouched.",
+            "Instances are all closed type-directed terms up to 5/6 nodes; patterns are the instance with a hole punched at every position with every shift 0..depth (both argument orders) and with two holes (distinct cells, the same cell twice) at pairs of positions; plus all ordered pairs of the 400/1200 smallest terms hole-free and holed (scope-escape and occurs-check configurations, the latter also chained through an earlier solution: (?0 ?1) against (a[?1] b[?0])), plus holed patterns under contexts with parameters and definitions, plus problems with holes on both sides. For every success of the real unify: following the solutions terminates, every solution is in scope where its hole was written (the home depth of a hole, depth minus shift, is the same at every copy of it), the filled-in terms are convertible in the reference, the context is untouched.",
             "Trusted: reference conversion (fuel-bounded). `false` on a holed pair is never judged (unification is not complete across reduction). F-HOLE-COPY is a known finding attributed through hook H2.",
             "DESIGN.md 6/C12"),
     "C18": ("exploration",
             "bounded exhaustive enumeration of (context, open term) pairs obtained by peeling closed programs, with snapshot comparison of the context vectors",
-            "Every closed type-directed program starting with a lambda or a definition group is peeled 1-3 binders deep; the typing and definitions contexts are built exactly as the checker pushes them (offsets 0, 1, 2) and the real type_check, normalize_weak_head and unify are called on the open body, well typed and in every single-point perturbation of the open part. Same verdict and convertible type as the closed program, normal form and unification agree with their closed counterparts, and both context vectors are pointer-identical after every call, accepted or rejected.",
+            "Every closed type-directed program starting with a lambda or a definition group is peeled 1-3 binders deep; the typing and definitions contexts are built exactly as the checker pushes them (offsets 0, 1, 2) and the real type_check, normalize_weak_head and unify are called on the open body, well typed and in every single-point perturbation of the open part; the computed-annotation family (universe aliases, universe-valued functions, aliases of aliases as binder annotations; 252 programs) is peeled 1-4 deep. Same verdict and convertible type as the closed program, normal form and unification agree with their closed counterparts, and both context vectors are pointer-identical after every call, accepted or rejected.",
             "Trusted: reference conversion. The normalisation / unification parts are judged only when the reference reaches a full normal form within fuel (conversion with general recursion is semi-decidable).",
             "DESIGN.md 6/C18"),
     "C19": ("model_checking",
             "explicit-state breadth-first search over programs under meaning-preserving rewrites, dedup on program text, behaviour compared on the real code",
-            "Initial states: every type-directed program of type int, bool or type that evaluates to a value. Transitions: seven rewrites (consistent renaming of one binder, redundant parentheses, unused definitions, naming the program, annotated identity wrapper, `if true` wrapper, swapping independent function definitions) at every applicable site. BFS to depth 2 from programs up to 4/5 nodes and depth 1 up to 6/7 nodes; every reachable program must be accepted and evaluate to the initial program's value. No reference model is involved.",
-            "Trusted: nothing beyond the rewrite definitions themselves (engine/src/props/c19.rs).",
+            "Initial states: every type-directed program of type int, bool or type that evaluates to a value, the nested-group family, and the mixed-group family (58 k groups of 4 annotated definitions mixing functions and computed definitions). Transitions: seven rewrites (consistent renaming of one binder, redundant parentheses, unused definitions, naming the program, annotated identity wrapper, `if true` wrapper, swapping any two independent function definitions of a group) at every applicable site. BFS to depth 2 from programs up to 4/5 nodes and depth 1 up to 6/7 nodes and from the families; every reachable program must be accepted and evaluate to the initial program's value. No reference model is involved.",
+            "Trusted: nothing beyond the rewrite definitions themselves (engine/src/props/c19.rs). One genuine defect is recorded as a known finding (F-ORDER-VALUE, the C01 finding seen through a reordering) with the C01 classifier.",
             "DESIGN.md 6/C19"),
     "C01": ("model_checking",
             "explicit-state exploration of the real small-step evaluator over exhaustively enumerated accepted programs, with a reference interpreter as the stuck-state oracle",
@@ -34,7 +34,7 @@ CHECKS = {
             "DESIGN.md 6/C02"),
     "C03": ("exploration",
             "bounded exhaustive enumeration of well-typed programs, all their single-point perturbations and all small annotated terms, judged by an independent NbE type checker",
-            "For every program of the space that the real front end accepts (type-directed programs up to 6/7 nodes, their annotation variants, every single-point perturbation at every subterm position of the programs up to 5 nodes (quick) / of all of them (thorough), all closed annotated terms up to 6/7 nodes, the alias and nested-group families), the elaborated term must be closed and an independent checker for explicitly typed terms (typing rules + lazy normalisation-by-evaluation with fuel) must derive a type convertible with the reported one.",
+            "For every program of the space that the real front end accepts (type-directed programs up to 6/7 nodes, their annotation variants, every single-point perturbation at every subterm position of the programs up to 5 nodes (quick) / of all of them (thorough), all closed annotated terms up to 6/7 nodes, the alias and nested-group families, and the type-pair family: ordered pairs of the smallest generated types and of all definition groups denoting types, of open types with a type-level function whose body is a group, and of terms under an opaque type constructor, meeting at an argument / the branches of a conditional / an annotated definition), the elaborated term must be closed and an independent checker for explicitly typed terms (typing rules + lazy normalisation-by-evaluation with fuel) must derive a type convertible with the reported one.",
             "Trusted: engine/src/model/typing.rs (the standard rules; gram's deliberate choices - type : type, `_` : type, implicit functions not applicable, annotation-blind conversion, no eta - are followed). Fuel exhaustion never yields a verdict. F-HOLE-COPY is a known finding with a defect-model classifier that only fires on programs with holes.",
             "DESIGN.md 6/C03"),
     "C04": ("model_checking",
